@@ -303,6 +303,67 @@ def shared_hierarchy_job(job):
     return out
 
 
+def yaml_reload_job(job):
+    """a model FILE loaded, the loaded template edited (update_var / a kept in-place run), and the same path loaded AGAIN
+    (template caches as they are, or cleared): the second load is the model the file describes, as it is in a fresh process"""
+    from pyrates import CircuitTemplate
+    from .. import yamlio
+    spec = job['spec']
+    out = dict(violations=[], inconclusive=[], obligations=[], history=[], src='')
+    tally = decide.Tally()
+    wd = tv.scratch_dir()
+    old = os.getcwd()
+    os.chdir(wd)
+    try:
+        with warnings.catch_warnings():
+            warnings.simplefilter('ignore')
+            d = tv.scratch_dir()
+            with open(os.path.join(d, 'model.yaml'), 'w') as f:
+                f.write(yamlio.spec_to_yaml_text(spec))
+            path = f"{d}/model/top"
+            try:
+                a = CircuitTemplate.from_yaml(path)
+                out['history'].append('a = CircuitTemplate.from_yaml(P)')
+                for act in job['acts']:
+                    if act == 'update_var':
+                        a.update_var(node_vars={first_state(spec): 6.5})
+                        out['history'].append(f"a.update_var(node_vars={{{first_state(spec)!r}: 6.5}})")
+                    elif act == 'update_edge':
+                        e0 = spec.edges[0]
+                        a.update_var(edge_vars=[(e0.src, e0.tgt, {'weight': 6.75})])
+                        out['history'].append(f"a.update_var(edge_vars=[({e0.src!r}, {e0.tgt!r}, {{'weight': 6.75}})])")
+                    elif act == 'compile':
+                        a.get_run_func('vf', step_size=0.25, vectorize=job['vectorize'], verbose=False,
+                                       float_precision='float64', in_place=False, file_name='pyrates_run')
+                        out['history'].append('a.get_run_func(in_place=False)')
+                    elif act == 'clear_frontend':
+                        clear_frontend_caches()
+                        out['history'].append('clear_frontend_caches()')
+            except Exception as e:   # noqa
+                out['history'].append(f"history step raised {type(e).__name__}: {str(e)[:80]}")
+            out['history'].append('target = CircuitTemplate.from_yaml(P)')
+            try:
+                ct = CircuitTemplate.from_yaml(path)
+                c = tv.compile_template(ct, vectorize=job['vectorize'], in_place=False)
+            except Exception as e:   # noqa
+                out['violations'].append(dict(kind='compile-raises', what=f"after the history the file cannot be loaded and "
+                                              f"compiled: {type(e).__name__}: {str(e)[:300]}"))
+                out['tally'] = tally.as_dict()
+                return out
+        out['src'] = c.src
+        res = tvspec.validate(spec, c, tally, vectorized=job['vectorize'])
+        for v_ in res['violations']:
+            v_['what'] = f"second load of the file after {out['history'][1:-1]}: {v_.get('what')}"
+        out['violations'] += res['violations']
+        out['inconclusive'] += res['inconclusive']
+        out['obligations'] += res['obligations']
+    finally:
+        os.chdir(old)
+        shutil.rmtree(wd, ignore_errors=True)
+    out['tally'] = tally.as_dict()
+    return out
+
+
 def _opcache_job(job):
     from pyverif.chh import c13_cache as H
     bad = []
@@ -424,6 +485,28 @@ def run(tier='quick', seed=0, only=None, verbose=False):
                        spec=spec3.describe(), spec_blob=tvspec.spec_blob(spec3), **v)
             rec['what'] = f"{job['key']}: {v.get('what')}"
             rep.violation(rec, v.get('finding') or findings.attribute('C13', dict(job, spec=spec3), rec))
+        for i in r['inconclusive']:
+            rep.inconcl(dict(key=job['key'], **{k: str(x)[:200] for k, x in i.items()}))
+    yj = []
+    for key, spec in families.fam_equal_values()[:1] + families.fam_hierarchy()[1:2] + families.fam_mixed_nodes(seed, n=2)[:1]:
+        for acts in (('update_var',), ('update_edge',), ('update_var', 'compile'), ('compile',), ('update_var', 'clear_frontend')):
+            for vec in ((True, False) if tier == 'thorough' else (False,)):
+                yj.append(dict(key=f"yaml-reload:{key}:{'+'.join(acts)}|vec={vec}", spec=spec, acts=acts, vectorize=vec))
+    if only:
+        yj = [j for j in yj if only in j['key']]
+    for job, outc in runner.run_jobs(yaml_reload_job, yj, timeout=600):
+        if not outc['ok']:
+            rep.harness_error(f"{job['key']}: {outc['error']} {outc.get('tb', '')[-400:]}")
+            continue
+        r = outc['result']
+        rep.add_stats(outc['stats'])
+        rep.add_tally(r['tally'])
+        rep.program(job['key'], nontrivial=bool(r['obligations']))
+        for v in r['violations']:
+            rec = dict(property='C13', key=job['key'], history=r['history'], emitted_source=r['src'],
+                       spec=job['spec'].describe(), spec_blob=tvspec.spec_blob(job['spec']), **v)
+            rec['what'] = f"{job['key']}: {v.get('what')}"
+            rep.violation(rec, v.get('finding') or findings.attribute('C13', job, rec))
         for i in r['inconclusive']:
             rep.inconcl(dict(key=job['key'], **{k: str(x)[:200] for k, x in i.items()}))
     if not only or 'opcache' in only:
